@@ -246,6 +246,11 @@ def corruptions():
             add(d, "field literal together with container literal", '#[debug("{a}")] struct S { #[debug("x")] a: u8 }')
             add(d, "duplicate field literal", 'struct S { #[debug("x")] #[debug("y")] a: u8 }')
             add(d, "unknown field argument", "struct S { #[debug(skipp)] a: u8 }")
+            # the same field-level mistakes under a container-level literal (field attributes are parsed by another function then)
+            add(d, "duplicate skip under a container literal", '#[debug("{a}")] struct S { #[debug(skip)] #[debug(ignore)] a: u8 }')
+            add(d, "unknown field argument under a container literal", '#[debug("{a}")] struct S { #[debug(skipp)] a: u8 }')
+            add(d, "legacy fmt = on a field under a container literal", '#[debug("{a}")] struct S { #[debug(fmt = "x")] a: u8 }')
+            add(d, "field literal under a variant literal", 'enum E { #[debug("{a}")] A { #[debug("x")] a: u8 } }')
             add(d, "union", "union U { a: u8 }")
     # ---- From
     add("From", "unknown argument (is a type)", "#[from(forwardd)] struct S(u8);", rustc=True)
@@ -401,6 +406,25 @@ P3_POS = {   # (derive, position) -> (template, documented parameters)
 }
 
 
+def shifted_corruptions():
+    """The offending attribute moved away from the first position: a clean field / variant is put in front of (and behind) the member
+    that carries it.  Validation loops that stop after the first member, or look at position 0 only, accept these."""
+    out = []
+    for d, cls, item, rustc in corruptions():
+        m = re.match(r"^(.*\bstruct S(?:<[^>]*>)? \{ )((?:#\[[^\]]*(?:\[[^\]]*\])?[^\]]*\] )+\w+: [^,}]+)(.*\})$", item)
+        if m:
+            out.append((d, cls + " (on a later field)", "%sz0: i8, %s, z9: i8%s" % (m.group(1), m.group(2).rstrip(), m.group(3) if m.group(3).strip().startswith("}") else ", " + m.group(3).lstrip(", ")), rustc))
+            continue
+        m = re.match(r"^(.*\bstruct S(?:<[^>]*>)?\()((?:#\[[^\]]*(?:\[[^\]]*\])?[^\]]*\] )+[^,)]+)(.*\);)$", item)
+        if m:
+            out.append((d, cls + " (on a later field)", "%si8, %s%s" % (m.group(1), m.group(2), m.group(3)), rustc))
+            continue
+        m = re.match(r"^(.*\benum E(?:<[^>]*>)? \{ )((?:#\[[^\]]*(?:\[[^\]]*\])?[^\]]*\] )+\w+.*)$", item)
+        if m:
+            out.append((d, cls + " (on a later variant)", "%sZ0(i8), %s" % (m.group(1), m.group(2)), rustc))
+    return out
+
+
 def part3(chk, thorough):
     L = 4 if thorough else 3
     reqs, meta = [], []
@@ -530,7 +554,7 @@ def run(chk, tier):
     for gi in (0, 6, len(R) // 2):
         chk.sample({"derive": R[gi][0], "rewrite": R[gi][1], "spellings": R[gi][2][:3]})
     # ---------------- Part 2: corruptions
-    C = corruptions()
+    C = corruptions() + shifted_corruptions()
     reqs = [{"derive": d, "item": (item if d != "Error" else "#[derive(Debug)] " * 0 + item)} for d, cls, item, rustc in C]
     res = svc(reqs)
     need_rustc = []
